@@ -662,6 +662,10 @@ func exhaustiveC03(thorough bool, emit func(C03Case) bool) {
 	}
 }
 
-func TestC03(t *testing.T) {
-	Run(t, Prop[C03Case]{ID: "C03", Gen: genC03, Exhaustive: exhaustiveC03, Check: checkC03})
+func propC03() Prop[C03Case] {
+	return Prop[C03Case]{ID: "C03", Gen: genC03, Exhaustive: exhaustiveC03, Check: checkC03}
 }
+
+func TestC03(t *testing.T) { Run(t, propC03()) }
+
+func FuzzGenC03(f *testing.F) { RunFuzz(f, propC03()) }
